@@ -3,7 +3,7 @@
 From Coq Require Import List NArith ZArith Bool.
 From Coq.Strings Require Import Byte.
 From Coq Require Extraction ExtrOcamlBasic.
-From L3 Require Ber BerFixed BerInt Utf8 Frame FrameSpec FrameFixed Filter Escape Dn Entry Result UrlParams Request RequestSeq Controls Msgid Conn Stream StreamSpec Paged Setup Tls.
+From L3 Require Ber BerFixed BerInt Utf8 Frame FrameSpec FrameFixed Filter Escape Dn Entry Result UrlParams Request RequestSeq Controls Msgid Conn ConnWire Stream StreamSpec Paged Setup Tls.
 Extraction Language OCaml.
 Extraction "model.ml"
   Byte.to_N Byte.of_N
@@ -22,5 +22,5 @@ Extraction "model.ml"
   Controls.parse_read_entry Controls.parse_utf8_val Controls.parse_passmod_resp
   Msgid.next_msgid Conn.step Conn.init Conn.repaired Conn.as_is Conn.quiescent Conn.clean Conn.op_finished
   Stream.start Stream.search StreamSpec.model_step StreamSpec.run
-  Paged.start Paged.next Paged.drain Paged.take_items Paged.finish Paged.cancelled
+  ConnWire.receive_buf Paged.start Paged.next Paged.drain Paged.take_items Paged.finish Paged.cancelled
   Setup.plan_of Setup.repaired18 Tls.establish.
